@@ -1313,7 +1313,15 @@ class Emitter:
                 # typed nondeterministic value; the wrapper struct makes the same line work for array-typed targets
                 b += '  { struct { __typeof__(%s) v; } verif_nd_%d; *(__typeof__(verif_nd_%d) *)&(%s) = verif_nd_%d; }\n' % (t, n, n, t, n)
                 n += 1
-        if rts != 'void':
+        if rts.endswith('*'):
+            # a returned pointer must be built from a named object: CBMC resolves dereferences through points-to sets, which an
+            # `assume(ret == ...)` on an uninitialised pointer does not feed (later writes through it would silently go nowhere)
+            m = re.search(r'__CPROVER_same_object\(verif_ret,\s*([A-Za-z_][\w.\->\[\]]*)\)', ' '.join(ens))
+            if not m:
+                raise Drift('stub form of %s: a pointer-returning contract needs an ensures clause __CPROVER_same_object(__CPROVER_return_value, <object>)' % cn)
+            b += ('  size_t verif_off; __CPROVER_assume(verif_off <= __CPROVER_OBJECT_SIZE(%s) - __CPROVER_POINTER_OFFSET(%s));\n'
+                  '  %s verif_ret = (%s)((char *)(%s) + verif_off);\n' % (m.group(1), m.group(1), rts, rts, m.group(1)))
+        elif rts != 'void':
             b += '  %s verif_ret;\n' % rts
         for e in ens:
             b += '  __CPROVER_assume(%s);\n' % e
